@@ -185,7 +185,8 @@ PROPS.update({
                  "the history reaches one of the named states: factory refusing a resolver update (empty list with the strict factory / armed failure), resolver update on an emptied pool, saturated pool with fallback, calls issued while a round-robin BIND is blocked",
                  conc=("TestConcC06", "Invariant: every workload finishes within 20 s (normal: milliseconds): no lock-order deadlock between completions, picks and balancer callbacks, no leaked lock.", 300, 5000, "TestSchedC06")),
     "C20": _pool("TestC20", "Profile 'addresses' (>=3 address lists, resolver errors, growth, refreshes at every stage). Oracle: after every update every alive pool conn has the latest list and was asked to reconnect; growth and replacement conns are created with the latest list; a replacement takes over with the latest list; a resolver error causes no ClientConn call.",
-                 "a resolver update while a replacement exists followed by its swap, or growth"),
+                 "a resolver update while a replacement exists followed by its swap, or growth",
+                 conc=("TestConcC20", "Invariant: after a workload with many resolver updates racing with refreshes, every connection that belongs to the pool (incl. replacements that took over) uses the latest resolved address list.", 120, 2500)),
 })
 
 def _gme(test, rule, nontriv):
